@@ -129,13 +129,15 @@ class StoredEditsNative(Contract):
     symbolic = False
     has_native = True
     props = ("C03",)
-    bounded_scope = "value map and colour map re-assigned 1-4 times on a stored type (same session and across sessions); concatenated drillholes renamed / re-planned / re-costed in a session that does nothing else (both format versions)"
+    bounded_scope = "value map and colour map re-assigned 1-4 times on a stored type (same session and across sessions, fresh dictionaries and the earlier dictionary / map object edited in place); concatenated drillholes renamed / re-planned / re-costed in a session that does nothing else (both format versions)"
 
     def native_cases(self, tier, rng):
         for n in (1, 2, 3, 4):
             for same_session in (True, False):
                 yield {"kind": "value-map", "n": n, "same_session": same_session}
                 yield {"kind": "color-map", "n": n, "same_session": same_session}
+        for how in ("same-dict-extended", "same-dict-relabelled", "map-object-edited"):
+            yield {"kind": "value-map-inplace", "how": how}
         for version in (2.0, 2.1):
             for attrs in (["name"], ["planning", "cost"], ["name", "end_of_hole"], ["collar"]):
                 yield {"kind": "concatenated-scalars", "version": version, "attrs": attrs}
@@ -186,6 +188,40 @@ class StoredEditsNative(Contract):
             want = {0: "Unknown", **m}
             if seen != want:
                 return f"value map assignment #{j + 1}: a later reader sees {seen}, the writer held {want} ({case})"
+        return None
+
+    def _value_map_inplace(self, case, path):
+        """the map given earlier is edited in place by the caller and assigned again to persist it"""
+        from geoh5py.objects import Points
+        from geoh5py.workspace import Workspace
+
+        with Workspace.create(path) as ws:
+            p = Points.create(ws, vertices=np.zeros((4, 3)))
+            dat = p.add_data({"r": {"values": np.array([1, 2, 3, 1], dtype="uint32"), "type": "referenced", "value_map": {1: "a", 2: "b", 3: "c"}}})
+            uid = dat.uid
+        with Workspace(path, mode="r+") as ws:
+            t = ws.get_entity(uid)[0].entity_type
+            m = {1: "granite", 2: "gneiss"}
+            t.value_map = m
+            if case["how"] == "same-dict-extended":
+                m[3] = "péridotite"
+                t.value_map = m
+                want = {0: "Unknown", 1: "granite", 2: "gneiss", 3: "péridotite"}
+            elif case["how"] == "same-dict-relabelled":
+                m[2] = "orthogneiss"
+                t.value_map = m
+                want = {0: "Unknown", 1: "granite", 2: "orthogneiss"}
+            else:
+                vm = t.value_map
+                vm[2] = "orthogneiss"
+                t.value_map = vm
+                want = {0: "Unknown", 1: "granite", 2: "orthogneiss"}
+            held = {int(k): str(v) for k, v in t.value_map.map.items()}
+        seen, _ = self._maps(path, uid)
+        if held != want:
+            return None  # the writer itself does not hold the edited map: nothing to compare
+        if seen != want:
+            return f"value map edited in place and assigned again: a later reader sees {seen}, the writer held {want} ({case})"
         return None
 
     def _color_map(self, case, path):
